@@ -339,7 +339,13 @@ def malformed(rng, ci, good, order_bits):
             out.append(("blob-length", build(name, nb)))
     if ci == 0:
         out.append(("rsa-leading-zero-stripped", build(name, blob.lstrip(b"\x00"))))
-        out.append(("rsa-zero-prefixed", build(name, b"\x00" * rng.randrange(1, 5) + blob)))
+        # over-long blobs: the genuine signature with extra bytes in front / behind is an ALTERED signature
+        for nz in sorted({1, 2, rng.randrange(1, 5), 4, 37}):
+            out.append(("rsa-overlong-zero-prefix", build(name, b"\x00" * nz + blob)))
+        out.append(("rsa-overlong-prefix", build(name, bytes([rng.randrange(1, 256)]) + blob)))
+        out.append(("rsa-overlong-prefix", build(name, b"\x00" + bytes(rng.randrange(256) for _ in range(rng.randrange(1, 6))) + blob)))
+        out.append(("rsa-overlong-suffix", build(name, blob + b"\x00" * rng.randrange(1, 5))))
+        out.append(("rsa-overlong-suffix", build(name, blob + bytes(rng.randrange(256) for _ in range(rng.randrange(1, 6))))))
         out.append(("rsa-all-ff", build(name, b"\xff" * len(blob))))
         out.append(("rsa-zero", build(name, b"\x00" * len(blob))))
         out.append(("rsa-short", build(name, blob[rng.randrange(1, len(blob)):])))
@@ -413,7 +419,7 @@ def run(ctx):
                 "messages (incl. empty) and, for RSA, all six algorithm names; verification of the genuine signature under "
                 "every counterpart, under other data, under other keys of the class, with bits flipped inside the signature "
                 "value, and ~60 structural mutations (truncation, extension, any-bit flips, 18 algorithm names incl. invalid "
-                "UTF-8, lying length prefixes, wrong blob lengths, RSA zero padding variants, ECDSA negative / zero / oversized "
+                "UTF-8, lying length prefixes, wrong blob lengths, RSA zero padding variants, over-long RSA blobs (genuine signature with 1..37 leading zero bytes / other bytes in front / bytes behind: must be rejected), ECDSA negative / zero / oversized "
                 "/ non-minimal / truncated inner integers).  Every call is one case; non-trivial = distinct")
     ctx.trusted += ["recording shims around the library objects (PubProxy/PrivProxy, VerifyKey.verify patch) in this harness",
                     "cryptography / PyNaCl signature verification and key derivation (oracles)"]
@@ -507,6 +513,11 @@ def run(ctx):
                                 nm = parts(mb)[0]
                                 foreign = (nm.decode("latin1") not in type(signer).HASHES) if ci == 0 else nm != name
                                 expect = False if foreign else None
+                            if kind.startswith("rsa-overlong"):
+                                # altered (longer than the modulus): must be rejected under every kind of object
+                                for lab2, o2 in objs[:3]:
+                                    one(o2, lab2, k["label"], data, mb, kind, expect=False)
+                                continue
                             code = one(o, lab, k["label"], data, mb, kind, expect=expect)
                     if ci == 0 and alg is None and data:
                         # PuTTY-style: a genuine signature whose leading zero byte(s) were dropped must still verify
